@@ -235,6 +235,28 @@ def main(tier, seed, replay=None):
         import shutil
         shutil.rmtree(d, ignore_errors=True)
     rep.oblige("errors raised inside module code name the module and the line within it", md == 0, "%d wrong" % md)
+    # (4) code read from text at run time (parse, eval): the file given to the interpreter, the line within the text
+    pe = 0
+    I2 = impl.new_interpreter(False, False)
+    for k in range(0, 4):
+        nl = "\\n" * k
+        for src, line, tracefile in [("def n = parse(\"%s1 +\\n 'x' -\\n 2\");\n\neval(n)" % nl, k + 2, True), ("eval(\"%s1 +\\n\\n undefined_zz\")" % nl, k + 3, True),
+                                     ("def n = parse(\"%sdef h_q(x) do\\n x +\\n undefined_zz\\nend;\\nh_q(1)\");\neval(n)" % nl, k + 3, True),
+                                     ("def n = parse(\"%sdef k_q(x) do\\n\\n error x\\nend\"); eval(n);\n\nk_q(3)" % nl, k + 3, True),
+                                     ("def n = parse(\"%s[1, 2][\\n7]\"); do eval(n) catch 'nomatch' 1 end" % nl, k + 1, True)]:
+            I2.environment = I2.base_environment.newEnv()
+            try:
+                I2.interpret(src, "main.ckl")
+                got = None
+            except (CklRuntimeError, CklSyntaxError) as e:
+                got = e
+            rep.count()
+            files = [] if got is None else [m.group(1) for m in (__import__("re").search(r" ([^ :]*):\d+:\d+$", x) for x in got.stacktrace) if m]
+            if got is None or got.pos is None or (got.pos.filename, got.pos.line) != ("main.ckl", line) or any(f != "main.ckl" for f in files) or len(files) != len(got.stacktrace):
+                pe += 1
+                rep.violation("input", "error in text read at run time: %r reports %s with trace %r, the fault is at main.ckl line %d of the text" % (
+                    src, getattr(got, "pos", None), getattr(got, "stacktrace", None), line), check="parsed-text", text=src, want_line=line)
+    rep.oblige("errors in code read from text at run time (parse, eval) name the interpreter's file and the line within the text", pe == 0, "%d wrong" % pe)
     if ok:
         lexcheck.t_correspondence(rep, texts[::4][:500], "c20")
     if tier == "thorough":
